@@ -250,6 +250,11 @@ func (s *Solver) Check(assumps []*Term, keepScope bool, want ...*Term) string {
 	sb.WriteString("(check-sat)\n")
 	s.send(sb.String())
 	res := "unknown"
+	// watchdog: a solver that ignores its own time limit is killed (the read below then
+	// fails and the query counts as unknown)
+	proc := s.cmd.Process
+	wd := time.AfterFunc(time.Duration(s.Timeout)*time.Millisecond*2+10*time.Second, func() { proc.Kill() })
+	defer wd.Stop()
 	for {
 		line, err := s.readLine()
 		if err != nil {
